@@ -66,7 +66,8 @@ CARRIED = {
     # (C09 `rule_exactness`); axisymmetric forms interpolate the radius with the element's shape FUNCTIONS (C04 `element`)
     # ... the condensed body's matrix (anchor file _solidbody_incompressible.py) is C01 `nearly_incompressible`; the commit of
     # its (p, J) state on convergence is Results.update_statevars (C07)
-    "C10": [("C03", "mixed", None), ("C01", "nearly_incompressible", None), ("C07", "update_statevars", None), ("C09", "rule_exactness", None), ("C04", "element", lambda cfg: cfg.get("tier") != "thorough")],
+    # ... the padded value / gradient of the plane-strain and axisymmetric field classes themselves (anchor files) are C06 `field_kinds`
+    "C10": [("C03", "mixed", None), ("C01", "nearly_incompressible", None), ("C07", "update_statevars", None), ("C09", "rule_exactness", None), ("C04", "element", lambda cfg: cfg.get("tier") != "thorough"), ("C06", "field_kinds", None)],
     # pressure resultants are stated against StubAreaChange
     # ... and the zero total moment of the internal forces is the proved first-moment identity plus Kirchhoff symmetry
     # P F^T = F P^T of the constitutive law: the C11 contracts of the Lagrange wrappers / AD wrappers
